@@ -18,11 +18,12 @@ BOUNDS = {
     'quick': 'owner in {root build function, subbuild, build_file} returning or raising (caught by its caller); one straggler thread '
              'calling one of the 12 builder methods on the owner\'s builder; every schedule with at most 3 pre-emptions, yield '
              'point = every library system call and lock acquire; also the straggler started strictly after the close (after the '
-             'build, and after the owner\'s function but inside the same build)',
+             'build, and after the owner\'s function but inside the same build); family published: the straggler first asks the root '
+             'builder whether the owner\'s output file exists and calls the owner\'s builder afterwards - once the output is visible the call must be rejected',
     'thorough': 'pre-emption bound 4',
 }
 ASSUMPTIONS = ['thread switches only at environment calls and lock operations']
-WITNESSES = {'quick': ['straggler-rejected', 'straggler-completed-and-recorded', 'straggler-after-close'],
+WITNESSES = {'quick': ['straggler-rejected', 'straggler-completed-and-recorded', 'straggler-after-close', 'output-seen-published'],
              'thorough': ['straggler-rejected']}
 
 QUERIES = ['is_file', 'is_dir', 'exists', 'list_dir', 'walk', 'get_size', 'declare_read', 'read_binary', 'read_text']
@@ -35,6 +36,8 @@ def families(tier):
     P = 3 if tier == 'quick' else 4
     return ([{'name': 'race', 'params': {'P': P, 'methods': COMPLEX}, 'weight': 3},
              {'name': 'race', 'params': {'P': P, 'methods': QUERIES}, 'weight': 3},
+             {'name': 'published', 'params': {'P': 2, 'lines': True, 'methods': ['is_dir', 'declare_read', 'subbuild'], 'owners': ['build_file'],
+                                              'raises': [False]}, 'weight': 2},
              {'name': 'after-close', 'params': {'P': 0, 'methods': METHODS}, 'weight': 1},
              {'name': 'after-owner', 'params': {'P': 0, 'methods': METHODS, 'owners': ['subbuild', 'build_file']}, 'weight': 1}])
 
@@ -74,7 +77,7 @@ def harness(eng, fam, P):
     method = P['methods'][eng.choose('method', len(P['methods']))]
     owners = P.get('owners', OWNERS)
     owner = owners[eng.choose('owner', len(owners))]
-    owner_raises = bool(eng.choose('owner_raises', 2))
+    owner_raises = bool(eng.choose('owner_raises', 2)) if 'raises' not in P else P['raises'][eng.choose('owner_raises', len(P['raises']))]
     w = World(eng, ['x'], fixed={'in': 'D', 'in/f': 'F'}, sandbox=getattr(eng, 'sandbox', None))
     eng.path_info.update({'method': method, 'owner': owner, 'owner_raises': owner_raises, 'family': fam})
     res = {}
@@ -82,7 +85,7 @@ def harness(eng, fam, P):
     out = w.p('strag/out')
     try:
         w.bind({'threading': FakeThreading()})
-        s = Sched(eng, P['P'])
+        s = Sched(eng, P['P'], lines=bool(P.get('lines')))
         hook = install(w, s)
 
         invoked = []
@@ -116,10 +119,21 @@ def harness(eng, fam, P):
 
         holder = {}
 
+        def watcher(b2):
+            # the straggler first looks, through the root builder, whether the owner's output has been published; a call on
+            # the owner's builder that starts after that must be rejected
+            try:
+                res['seen'] = bool(holder['root'].is_file(w.p('own.out')))
+            except Exception as e:
+                res['werr'] = exc_name(e)
+            call(b2)
+
         def own_body(b2, fn=None):
             holder['b'] = b2
             if fam == 'race':
                 s.spawn(lambda: call(b2), 'straggler')
+            if fam == 'published':
+                s.spawn(lambda: watcher(b2), 'straggler')
             if fn is not None:
                 w.user_write(w.fs, fn, 4)
             if owner_raises:
@@ -127,6 +141,7 @@ def harness(eng, fam, P):
             return 1
 
         def root(b):
+            holder['root'] = b
             if owner == 'root':
                 return own_body(b)
             try:
@@ -161,7 +176,7 @@ def harness(eng, fam, P):
         sig = (fam, owner, 'raises' if owner_raises else 'returns', method)
         eng.path_info['schedule'] = s.trace[:8]
         v = res.get('v')
-        if v is None:
+        if v is None and fam != 'published':
             eng.check('C17.straggler-lost', False, sig)
         doc = read_cache_doc(w)
         recs = records(doc)
@@ -174,6 +189,14 @@ def harness(eng, fam, P):
         else:
             mine = [r for r in recs if r[0] == 'build_file' and r[1] == out]
         info = {'result': v, 'records_of_the_call': mine, 'schedule': s.trace[:8]}
+        if fam == 'published':
+            # only this family's own obligation (the generic ones are the business of the race family)
+            if res.get('seen'):
+                eng.witness('output-seen-published')
+                eng.check('C17.call-accepted-after-output-published', v is not None and v[0] == 'RuntimeError',
+                          sig + (v[0] if v else 'lost',), info=dict(info, seen=True, watcher_error=res.get('werr')))
+            eng.sample({'family': fam, 'method': method, 'seen_published': bool(res.get('seen')), 'result': v and v[0]})
+            return
         if fam in ('after-close', 'after-owner'):
             eng.witness('straggler-after-close')
             eng.check('C17.call-after-close-not-rejected', v[0] == 'RuntimeError', sig + (v[0],), info=info)
